@@ -156,24 +156,29 @@ fn native_enum_multi_verify_small_proofs_total() {
     assert!(failure.is_none(), "{}", failure.unwrap());
 }
 
-/// C08 (ordering contract, bounded native enumeration): a multi-proof that `verify` ACCEPTS has
-/// strictly ascending terminal paths - the fact `find_index_for`'s binary search and the update
-/// verifier rely on.  For every pair/triple of small terminals (terminators of depth 0..=3 with
+/// C08 (ordering and scope contract, bounded native enumeration): a multi-proof that `verify`
+/// ACCEPTS has strictly ascending terminal paths - the fact `find_index_for`'s binary search and the
+/// update verifier rely on - and pairwise disjoint scopes: no terminal's claimed scope
+/// (path[..depth]) is a prefix of another's, so a terminal can never speak for keys that belong to
+/// a sibling sub-trie.  For every pair/triple of small terminals (terminators of depth 0..=3 with
 /// honest depths, 4 leaf patterns at depths 1..=3) and 0..=3 siblings, the root is computed with
 /// the real `verify_range`, so the root comparison passes and only the structural checks decide.
 #[cfg(test)]
 #[test]
 fn native_enum_multi_verify_accepts_only_sorted() {
     type B3 = crate::hasher::Blake3Hasher;
+    // every small terminal with EVERY claimed depth 0..=3 (honest or not)
     let mut items: Vec<MultiPathProof> = Vec::new();
     for depth in 0..=3usize {
         for v in 0..(1usize << depth) {
             let bits: Vec<bool> = (0..depth).map(|i| (v >> (depth - 1 - i)) & 1 == 1).collect();
-            items.push(MultiPathProof { terminal: PathProofTerminal::Terminator(pos_from_bits(&bits)), depth });
+            for claimed in 0..=3usize {
+                items.push(MultiPathProof { terminal: PathProofTerminal::Terminator(pos_from_bits(&bits)), depth: claimed });
+            }
         }
     }
     for first in [0x00u8, 0x40, 0x80, 0xff] {
-        for depth in 1..=3usize {
+        for depth in 0..=3usize {
             let mut k = [0u8; 32];
             k[0] = first;
             items.push(MultiPathProof {
@@ -206,6 +211,23 @@ fn native_enum_multi_verify_accepts_only_sorted() {
                 for w in mp.paths.windows(2) {
                     if !(w[0].terminal.path() < w[1].terminal.path()) {
                         return Some(format!("verify accepted a multi-proof whose paths are not strictly ascending: {:?}", mp.paths));
+                    }
+                }
+                // scopes: terminal i speaks for the keys starting with path_i[..depth_i]; an accepted
+                // proof must give every key to at most one terminal (no scope is a prefix of another)
+                for i in 0..mp.paths.len() {
+                    let pi = mp.paths[i].terminal.path();
+                    if mp.paths[i].depth > pi.len() {
+                        return Some(format!("verify accepted a terminal whose claimed depth exceeds its path: {:?}", mp.paths));
+                    }
+                    for j in 0..mp.paths.len() {
+                        if i == j { continue; }
+                        let pj = mp.paths[j].terminal.path();
+                        let si = &pi[..mp.paths[i].depth];
+                        let sj = &pj[..mp.paths[j].depth.min(pj.len())];
+                        if sj.len() >= si.len() && sj[..si.len()] == *si {
+                            return Some(format!("verify accepted overlapping scopes: terminal {} (depth {}) covers terminal {}: {:?}", i, mp.paths[i].depth, j, mp.paths));
+                        }
                     }
                 }
                 None
